@@ -59,7 +59,7 @@ def main(c):
     rv = vf.tlc(SPEC, "SubscribeMC", cfg("C18.dev.cfg", "A", [], ["u1"], ["LoadBeforeLock"], invs), workers=4, timeout=600, quiet=True)
     if not rv.violated:
         raise vf.ToolError("Subscribe: the invariants are vacuous (deviation LoadBeforeLock not detected)")
-    num = 400 if thorough else 60
+    num = 500 if thorough else 250
     inp = os.path.join(vf.WORK, "C18.sub.in")
     outp = os.path.join(vf.WORK, "C18.sub.out")
     exp = []
@@ -74,7 +74,9 @@ def main(c):
             for w in walks:
                 if not w[-1]["quiescent"]:
                     continue
-                f.write(f"walk {prog} {','.join(ends) or '-'}\n")
+                # every other behaviour runs with peer p1's next hop reported unreachable: reachability is no part of the
+                # Adj-RIB-In, so the model is the same, but the table then holds paths flagged next-hop-invalid
+                f.write(f"walk {prog} {','.join(ends) or '-'} {total_walks % 2}\n")
                 exp.append(("walk", tag))
                 for stp in w:
                     f.write(f"{stp['th']} {stp['step']}\n")
@@ -129,7 +131,7 @@ def main(c):
     c.cov["exhaustive"] = False
     c.cov["rule"] = ("model: all interleavings of two session threads (2-3 calls each, with and without session end), one or two "
                      "subscribers, two shards, three keys, an import policy rejecting one value - exhaustive in TLC; replay: random "
-                     "complete interleavings (60 per configuration quick, 400 thorough) on real threads; distinct = replayed behaviours")
+                     "complete interleavings (250 per configuration quick, 500 thorough; every other one with a next hop reported unreachable) on real threads; distinct = replayed behaviours")
     c.assumptions += ["scheduling points sit right before each shard-lock acquisition: a change that moves work across such a point is "
                       "visible, a change between two statements inside one critical section or before the point is only visible through its "
                       "effect on the final comparison", "drop_stale / LLGR purges / soft_reset_in (which read the subscriber list before "
